@@ -78,7 +78,13 @@ def h_f6(ctx, fa, fs, correction, via="Arc"):
     t1, t2 = RX * RX * Y * Y, RY * RY * X * X
     rad = (RX * RX * RY * RY - t1 - t2)
     # the code takes sqrt(abs(rad / (t1 + t2))): by construction c^2 = |rad/(t1+t2)|; the radicand is non-negative because the end points fit
-    ctx.claim("F.6.5.2 c^2 (t1 + t2) = |radicand| (by construction of the root)", ctx.implies(ctx.gt(t1 + t2, 0), ctx.eq(C * C * (t1 + t2), ctx.absval(rad), scale=RX * RX * RY * RY)))
+    # decided in three steps over the function's own intermediates (the direct query is unknown on every path):
+    # (i) c is the root the code took, (ii) abstract lemma over the numerator and denominator of that quotient,
+    # (iii) the intermediates are the specified polynomials (claimed above).
+    Ncode, Dcode = L["rx_sq"] * L["ry_sq"] - L["t1"] - L["t2"], L["t1"] + L["t2"]
+    ctx.claim("F.6.5.2 c is the root the code took: c^2 = |(rx_sq ry_sq - t1 - t2) / (t1 + t2)|", ctx.eq(C * C, ctx.absval(Ncode / Dcode), scale=RX * RX * RY * RY))
+    ctx.claim_generalised("F.6.5.2 c^2 (t1 + t2) = |radicand| over the code's numerator and denominator",
+                          [ctx.eq(C * C, ctx.absval(Ncode / Dcode)), ctx.gt(Dcode, 0)], ctx.eq(C * C * Dcode, ctx.absval(Ncode)), [C, Ncode, Dcode])
     ctx.claim_generalised("F.6.5.2 the radicand is non-negative once the radii fit", [fit, nz, pos], ctx.and_(ctx.ge(rad, 0, scale=RX * RX * RY * RY), ctx.gt(t1 + t2, 0)), [X, Y, RX, RY])
     sc = RX * RX * RY * RY      # magnitude of the terms that cancel in the radicand (float evaluation of the same claims)
     ctx.claim_generalised("F.6.5.2 c^2 (t1 + t2) = rx^2 ry^2 - t1 - t2", [ctx.eq(C * C * (t1 + t2), ctx.absval(rad), scale=sc), ctx.ge(rad, 0, scale=sc), ctx.gt(t1 + t2, 0)],
